@@ -277,6 +277,9 @@ def lua_sources(tier):
     out.append(('bytes-in-longstring', b''.join(st)))
     out.append(('bytes-in-ident', b''.join(b'a' + bytes([b]) + b'=' + bytes([b]) + b'\n' for b in range(0x80, 0x100))))
     out.append(('nul-in-comment', b'--a\x00b\n'))
+    # one physical line whose .p8 (UTF-8) form is longer than 2^16 bytes although it has far fewer characters
+    out.append(('long-glyph-comment', b'x=1\n--' + b'\x9a\x8e\x80' * 8000 + b'\ny=2\n'))
+    out.append(('long-glyph-string', b's="' + b'\x8b\x91\x94\x83' * 5000 + b'" t=[[' + b'\xf0' * 23000 + b']]\n'))
     # quoted strings over all ordered pairs of the escape / byte atoms of C06 (what the writer re-spells must read back
     # to the same text): one cart per quote kind
     from props import c06
@@ -438,12 +441,38 @@ def path_history(res, ext):
             res.nontriv(('history', ext, step))
             case = {'tag': ['history', ext, step]}
             g = carts.make_game(fills, version=version, code_lines=[code], label=label if ext == '.p8' else None)
+            # the one file is named in different ways along the history (absolute, relative to the working directory,
+            # through ./ and a sub/.. detour) and, on step 2, replaced by copying another file over it; a second
+            # directory holds a different cart under the SAME relative name and is read between the steps
+            os.makedirs(os.path.join(d, 'sub'), exist_ok=True)
+            os.makedirs(os.path.join(d, 'other'), exist_ok=True)
+            spell_w = [path, 'same' + ext, os.path.join(d, 'sub', '..', 'same' + ext), os.path.join('.', 'same' + ext)][step % 4]
+            spell_r = ['same' + ext, path, os.path.join('.', 'same' + ext), 'same' + ext][step % 4]
+            cwd0 = os.getcwd()
             try:
-                p8file.to_file(g, path)
-                g2 = p8file.from_file(path)
+                os.chdir(d)
+                if step == 2:
+                    tmpname = os.path.join(d, 'fresh' + ext)
+                    p8file.to_file(g, tmpname)
+                    shutil.copyfile(tmpname, path)
+                    os.unlink(tmpname)
+                else:
+                    p8file.to_file(g, spell_w)
+                g2 = p8file.from_file(spell_r)
+                # the other directory's file of the same relative name
+                og = carts.make_game({}, version=9, code_lines=[b'-- other dir %d\no=%d\n' % (step, step)])
+                os.chdir(os.path.join(d, 'other'))
+                p8file.to_file(og, os.path.join(d, 'other', 'same' + ext))
+                o2 = p8file.from_file('same' + ext)
+                if b''.join(o2.lua.to_lines()).rstrip(b'\n') != b'-- other dir %d\no=%d' % (step, step):
+                    res.violation('C03|history|stale|other-directory', 'reading same%s relative to another directory returns the cart of the '
+                                  'first directory (or an earlier one)' % ext, case)
+                    return
             except Exception as e:
                 res.violation('C03|history|raise|%s' % type(e).__name__, 'step %d of write/read history on one path raised %r' % (step, e), case)
                 return
+            finally:
+                os.chdir(cwd0)
             got = carts.game_regions(g2)
             want = {n: bytes(fills[n]) for n in fills}
             want['music'] = carts.mask_music(want['music']) if ext == '.p8' else want['music']
